@@ -575,3 +575,7 @@ def _second_opinion(stream, prepared):
 def sample_view(sc, r):
     return {"key": sc.get("key"), "trace": sc.get("trace"), "short_write_pattern": sc.get("accept"),
             "ops": [[o["op"], o.get("opcode"), o.get("fin", 1), o.get("kind"), o.get("len"), o.get("again")] for o in sc["ops"]][:12]}
+
+
+# round 7 summary for the evidence file
+RULE = RULE + "  Object history (round 7): in 8 % of the seeded scenarios and an enumerated family the object's earlier connection took 3 bytes of a frame before the write timed out and was then found gone by a receive call - nothing of it belongs on the judged connection."
